@@ -12,6 +12,7 @@ import (
 	"regexp"
 	"strconv"
 	"strings"
+	"sync"
 )
 
 func init() { commands["C05"] = runC05 }
@@ -58,6 +59,10 @@ type Payload struct {
 }
 
 type Payloads []Payload
+
+// helpers the generated code expects for date types
+func NewDateFrom(t time.Time) Date { return Date(t) }
+func (d Date) Time() time.Time     { return time.Time(d) }
 `
 
 type crudIntent struct {
@@ -422,8 +427,11 @@ func runC05(e *env) {
 	e.m.Rule = "corpus + seeded synthesised model files (tables only in the analysed file; primary tables with the id at any position, link tables, foreign keys by id type / nullable wrapper / tag, guards, unexported fields, UNIQUE and _SELECT KEY directives): " +
 		"the generated Go file is parsed (go/parser): SQL text of every Query/QueryRow/Exec/CopyIn call, argument expressions, scan function, destinations of scanOne<T>; every SQL text is parsed into the statement AST (any other text is reported) and compared function by function with the model; " +
 		"each statement is checked in Coq against the schema read from the real SQL script (tables and columns exist up to case, placeholders are $1..$n for n arguments, written columns receive item.<their field>, unwritten columns have a default, result columns line up with the scan destinations); " +
-		"one evaluation = one generated function; non-trivial = function with a WHERE clause or a column list"
-	e.m.Extra = map[string]interface{}{"mismatch_means": "model"}
+		"run-time oracle: per module a test binary (source package + generated CRUD file + functional lib/pq stand-in) runs histories of the generated functions, called by reflection with random items (5-9 per table), over database/sql against an in-memory driver enforcing the schema of the generated script, and compares every result with a map model; " +
+		"one evaluation = one generated function; non-trivial = function with a WHERE clause or a column list; oracle runs = calls of generated functions"
+	e.m.Extra = map[string]interface{}{"mismatch_means": "model",
+		"assumptions": []string{"github.com/lib/pq is replaced by a functional stand-in (text arrays, NullTime, CopyIn) written from its documented behaviour",
+			"the in-memory driver returns bytes for jsonb / array / composite / bytea columns and canonical composite text, as lib/pq does; timestamps are whole seconds, floats are float32-representable (real columns)"}}
 	specs := corpusCrud()
 	for _, m := range repoFixtures("repo-sql-models") {
 		m.Class = "update-single-column-row" // its Progression table has one column beside the id
@@ -436,7 +444,69 @@ func runC05(e *env) {
 	for i := 0; i < n; i++ {
 		specs = append(specs, synthCrud(e.r, i))
 	}
-	obs := observeAll(specs, "sql,sqlcrud,tables", 14)
+	obs := observeAll(specs, "sql,sqlcrud,tables,gounions", 14)
+	// the run-time oracle: histories of the generated functions over the in-memory schema-enforcing driver
+	samples := 5
+	if e.thorough() {
+		samples = 9
+	}
+	bins := make([]*binResult, len(specs))
+	{
+		var wg sync.WaitGroup
+		sem := make(chan struct{}, 8)
+		for i, o := range obs {
+			if o.LoadErr != "" || o.Outcome != "ok" || o.Gen["sql"].Outcome != "ok" || o.Gen["sqlcrud"].Outcome != "ok" || o.Gen["tables_json"].Outcome != "ok" {
+				continue
+			}
+			if specs[i].ModPath != "example.com/org/models" || o.Gen["gounions"].Outcome != "ok" {
+				continue // the repository fixtures are not at the root of their module
+			}
+			wg.Add(1)
+			sem <- struct{}{}
+			go func(i int, o *obsResult) {
+				defer wg.Done()
+				defer func() { <-sem }()
+				bins[i] = runTestBinaryX(specs[i], o, e.seed+int64(i), samples, false,
+					&crudOpts{CrudText: o.Gen["sqlcrud"].Text, Script: o.Gen["sql"].Text, SpecJSON: o.Gen["tables_json"].Text})
+			}(i, o)
+		}
+		wg.Wait()
+	}
+	crudOps := 0
+	for i, r := range bins {
+		if r == nil {
+			continue
+		}
+		spec := specs[i]
+		if r.BuildErr != "" {
+			e.m.count("oracle_binary_does_not_build")
+			e.m.sampleErr(spec.Name + ": " + r.BuildErr)
+			continue
+		}
+		e.m.count("oracle_binary_ran")
+		if r.RunErr != "" {
+			e.m.fail(oracleFailure{What: "the CRUD oracle binary died: " + r.RunErr, Input: spec, Class: spec.Class})
+		}
+		for _, rec := range r.Records {
+			switch rec.Kind {
+			case "crud-summary":
+				n, _ := strconv.Atoi(rec.Msg)
+				crudOps += n
+				e.m.OracleRuns += n
+			case "crud":
+				cls := ""
+				switch {
+				case strings.Contains(rec.Msg, "multiple-column UPDATE item"):
+					cls = "update-single-column-row"
+				case strings.Contains(rec.Msg, "empty WHERE"):
+					cls = "link-table-without-foreign-key"
+				}
+				e.m.fail(oracleFailure{What: "run-time oracle, table " + rec.Type + ": " + rec.Msg, Input: spec, Class: cls})
+			}
+		}
+	}
+	e.m.Extra["oracle_calls_of_generated_functions"] = crudOps
+
 	var cases []string
 	var inputs []interface{}
 	flush := func() {
